@@ -1,6 +1,6 @@
 (* C08 — each needed target runs exactly once per one-shot run; others never.
    Property theorems only; proofs are in Proofs/SysOneShot.v, Proofs/SysC07.v. *)
-From Zinoma.Proofs Require Import SysOneShot SysC07.
+From Zinoma.Proofs Require Import SysOneShot SysC07 SysC08.
 
 (* In a one-shot run (no change notification exists), whatever the interleaving of the duplicate requests, no target is
    started twice. *)
@@ -23,3 +23,14 @@ Theorem C08_results_match_starts :
     Nat.b2n (ongoing a) + count_occ obs_eq_dec (hist s) (ObSucc t) + count_occ obs_eq_dec (hist s) (ObFail t)
       + count_occ obs_eq_dec (hist s) (ObCancel t) = count_occ obs_eq_dec (hist s) (ObStart t).
 Proof. intros fx watch g roots s t a. exact (results_match_starts fx g roots watch s t a). Qed.
+
+(* one-shot, success: when the root has received every acknowledgement (it then exits 0, or waits for a signal if a service
+   is behind a requested target), every build and service in the dependency closure of the requested targets — however many
+   targets depend on it, also when it is requested explicitly as well — was started exactly once and succeeded.
+   (That the root does get there is C04_no_lost_wakeup.) *)
+Theorem C08_exactly_once_on_success :
+  forall (fx : bool) (g : graph) (roots : list tid) (s : sys) (r t : tid) (kt : akind) (deps : list tid),
+    reachable fx false g roots s -> r_unavB s = ∅ -> r_unavS s = ∅ -> r ∈ roots -> (t = r \/ tdep g r t) ->
+    g !! t = Some (kt, deps) -> kt <> AAggregate ->
+    count_occ obs_eq_dec (hist s) (ObStart t) = 1 /\ ObSucc t ∈ hist s.
+Proof. exact exactly_once_on_success. Qed.
